@@ -1,5 +1,6 @@
-"""setup-time warm-up and validation of the models of Engine M (DESIGN.md section 4)"""
-import sys
+"""setup-time warm-up and validation of the std models of Engine M against the real std / regex crate (DESIGN.md section 4).
+None of this decides a property; a mismatch means a model is wrong and every check that uses it must not be believed."""
+import sys, re, itertools, random, struct, subprocess
 from common import *
 
 
@@ -10,6 +11,83 @@ def warm():
     print('warm ok')
 
 
+def batch(bins, cmd, lines, extra=()):
+    p = subprocess.run([bins['release'], cmd] + list(extra), input='\n'.join(lines) + '\n', capture_output=True, text=True, timeout=900)
+    return p.stdout.split('\n')[:len(lines)]
+
+
+def validate():
+    sys.path.insert(0, os.path.join(VERIF, 'mirx'))
+    import numpy as np
+    import redfa
+    src = snapshot()
+    bins = replay_build(src, ('release',))
+    bad = 0
+    # ---- S2: regex -> DFA, on the pattern literals of the current source
+    txt = open(os.path.join(src, 'src/hand_range/hand_range_token.rs')).read()
+    pats = re.findall(r'Regex::new\(\s*r"([^"]*)"', txt)
+    alpha = ['A', 'K', '2', 's', 'o', 'h', '+', '-', ':', '0', '1', '9', '.', 'x', 'é']
+    words = [''.join(t) for L in range(0, 5) for t in itertools.product(alpha, repeat=L)]
+    rnd = random.Random(1)
+    words += [''.join(rnd.choice(alpha) for _ in range(rnd.randrange(5, 14))) for _ in range(30000)]
+    for ptn in pats:
+        t, a = redfa.dfa(ptn)
+        got = batch(bins, 'regex_batch', [w.encode().hex() for w in words], [ptn.encode().hex()])
+        for w, g in zip(words, got):
+            q = 0
+            dead = False
+            for by in w.encode():
+                if by >= 128:
+                    dead = True
+                    break
+                q = t[q][by]
+            mine = (not dead) and a[q]
+            if mine != (g == '1'):
+                bad += 1
+                if bad < 5:
+                    print('S2 MISMATCH', ptn, repr(w), mine, g)
+    print(f'S2 regex->DFA: {len(pats)} patterns x {len(words)} strings vs the regex crate: {"ok" if not bad else "MISMATCH"}')
+    # ---- S3: f32::from_str on d(.d{1,6})? = correctly rounded m/10^k
+    lits = ['0', '1'] + [f'{d}.{f:0{k}d}' for d in (0, 1) for k in range(1, 5) for f in range(0, 10 ** k, max(1, 10 ** k // 997))]
+    lits += [f'{rnd.randrange(2)}.{rnd.randrange(10**6):06d}' for _ in range(20000)]
+    got = batch(bins, 'f32parse_batch', [l.encode().hex() for l in lits])
+    b3 = 0
+    for l, g in zip(lits, got):
+        digs = l.replace('.', '')
+        m = np.float32(int(digs))
+        sc = np.float32(10 ** (len(digs) - 1))
+        v = np.float32(m / sc)
+        bits = struct.unpack('>I', struct.pack('>f', float(v)))[0]
+        if g != f'{bits:08x}':
+            b3 += 1
+            if b3 < 5:
+                print('S3 MISMATCH', l, g, f'{bits:08x}')
+    print(f'S3 f32::from_str: {len(lits)} literals: {"ok" if not b3 else "MISMATCH"}')
+    # ---- S4: Display contract for w in [0,1]
+    vals = [0, 0x80000000, 0x3f800000, 1] + [rnd.randrange(1, 0x3f800000) for _ in range(30000)] + [0x3f7fffff, 0x00800000, 0x007fffff]
+    got = batch(bins, 'f32fmt_batch', [f'{v:08x}' for v in vals])
+    b4 = 0
+    for v, g in zip(vals, got):
+        t, back = g.split(' ')
+        okk = back == f'{v:08x}'
+        if v == 0:
+            okk &= t == '0'
+        elif v == 0x80000000:
+            okk &= t == '-0'
+        elif v == 0x3f800000:
+            okk &= t == '1'
+        else:
+            okk &= re.fullmatch(r'0\.[0-9]+', t) is not None
+        if not okk:
+            b4 += 1
+            if b4 < 5:
+                print('S4 MISMATCH', f'{v:08x}', g)
+    print(f'S4 f32 Display contract: {len(vals)} values in [0,1]: {"ok" if not b4 else "MISMATCH"}')
+    return bad + b3 + b4
+
+
 if __name__ == '__main__':
     if sys.argv[1:] == ['warm']:
         warm()
+    elif sys.argv[1:] == ['validate']:
+        sys.exit(1 if validate() else 0)
